@@ -223,7 +223,9 @@ impl Scenario for Extract {
         // ---- sandbox
         static RUN_NO: std::sync::atomic::AtomicU64 = std::sync::atomic::AtomicU64::new(0);
         let run_no = RUN_NO.fetch_add(1, std::sync::atomic::Ordering::Relaxed);
-        let root = PathBuf::from(format!("{}/target/sandbox/w{}/r{}", verif_root(), std::process::id(), run_no));
+        // fixed-width components: the absolute canary path is embedded in entry names, and the archive
+        // layout (hence the I/O schedule digest) must not depend on which worker process runs the case
+        let root = PathBuf::from(format!("{}/target/sandbox/w{:010}/r{:010}", verif_root(), std::process::id(), run_no));
         force_remove(&root);
         let mut parent = root.clone();
         let canary_dir = root.join("canary");
